@@ -38,7 +38,7 @@ Proof. repeat split; vm_compute; reflexivity. Qed.
 Lemma bound_old_p : forallb (fun u => Nat.leb (length (nonskypix_dimension_names u)) 13) shipped_universes = true.
 Proof. vm_compute. reflexivity. Qed.
 
-Lemma lookup_sweep_old2 : lookup_sweep u_old2 = true. Proof. vm_compute. reflexivity. Qed.
-Lemma lookup_sweep_old3 : lookup_sweep u_old3 = true. Proof. vm_compute. reflexivity. Qed.
-Lemma lookup_sweep_old4 : lookup_sweep u_old4 = true. Proof. vm_compute. reflexivity. Qed.
-Lemma lookup_sweep_old5 : lookup_sweep u_old5 = true. Proof. vm_compute. reflexivity. Qed.
+Lemma lookup_sweep_old2 : lookup_sweep u_old2 = true. Proof. vm_cast_no_check (eq_refl true). Qed.
+Lemma lookup_sweep_old3 : lookup_sweep u_old3 = true. Proof. vm_cast_no_check (eq_refl true). Qed.
+Lemma lookup_sweep_old4 : lookup_sweep u_old4 = true. Proof. vm_cast_no_check (eq_refl true). Qed.
+Lemma lookup_sweep_old5 : lookup_sweep u_old5 = true. Proof. vm_cast_no_check (eq_refl true). Qed.
